@@ -308,6 +308,22 @@ Fixpoint wfb (t : ty) : bool :=
       forallb (fun a => match a with ATy c => wfb c | _ => true end) args && forallb wfb fields
   end.
 
+(** Type arguments of structs are witnessed by the fields: whenever all (instantiated) fields
+    of a struct type are copyable, so are all its type arguments.  This is what fails for a
+    phantom parameter (`struct S[T]: x: int` at S[qubit]) or a parameter used only inside a
+    function type; `nophantomb` below is the syntactic reading. *)
+Fixpoint witnessedb (t : ty) : bool :=
+  match t with
+  | TNone | TNum _ | TVar _ _ _ | TFun _ _ => true
+  | TTuple els => forallb witnessedb els
+  | TOpaque _ args => forallb (fun a => match a with ATy c => witnessedb c | _ => true end) args
+  | TStruct _ args fields =>
+      forallb (fun a => match a with ATy c => witnessedb c | _ => true end) args
+      && forallb witnessedb fields
+      && implb (forallb (fun f => ti_copyable (info f)) fields)
+               (forallb (fun a => match a with ATy c => ti_copyable (info c) | _ => true end) args)
+  end.
+
 (** No phantom type argument: every type argument of every struct type occurs in one of
     its (instantiated) fields.  `struct S[T]: x: int` instantiated at S[qubit] violates it. *)
 Fixpoint nophantomb (t : ty) : bool :=
